@@ -113,9 +113,17 @@ fn build(head: &Intent, pre: &[Intent], events: &[Intent]) -> SplitPair {
     let per_affiliate = head.cur % 2 == 0;
     let ratio = if b.gt(&a) || sa.contains('.') { format!("{}-for-{}", if sa.contains('.') { sa.to_string() } else { format!("{sa}.0") }, if sb.contains('.') { sb.to_string() } else { format!("{sb}.0") }) } else { format!("{sa}-for-{sb}") };
     let mut ids: Vec<String> = base.iter().map(|r| r.af.clone()).collect(); ids.sort(); ids.dedup();
+    // a third of the splits that factor are entered as two successive splits on the same day (6-for-1 as 2-for-1 then 3-for-1, ...)
+    let fmt = |x: &str, y: &str| -> String { let (rx, ry) = (Rat::parse(x).unwrap(), Rat::parse(y).unwrap()); if ry.gt(&rx) || x.contains('.') { format!("{}-for-{}", if x.contains('.') { x.to_string() } else { format!("{x}.0") }, if y.contains('.') { y.to_string() } else { format!("{y}.0") }) } else { format!("{x}-for-{y}") } };
+    let chain: Vec<String> = if head.ccur % 3 == 0 {
+        match (sa, sb) { ("4", "1") => vec![fmt("2", "1"), fmt("2", "1")], ("10", "1") => vec![fmt("2", "1"), fmt("5", "1")], ("1", "4") => vec![fmt("1", "2"), fmt("1", "2")], ("1", "6") => vec![fmt("1", "2"), fmt("1", "3")], ("1", "10") => vec![fmt("1", "5"), fmt("1", "2")],
+            ("3", "2") => vec![fmt("3", "1"), fmt("1", "2")], ("2", "3") => vec![fmt("1", "3"), fmt("2", "1")], ("4", "3") => vec![fmt("4", "1"), fmt("1", "3")], ("5", "2") => vec![fmt("5", "1"), fmt("1", "2")], ("3", "1") => vec![fmt("3", "2"), fmt("2", "1")], ("2", "1") => vec![fmt("4", "1"), fmt("1", "2")], _ => vec![ratio.clone()] }
+    } else { vec![ratio.clone()] };
     let mut split_rows: Vec<HRow> = vec![];
-    if per_affiliate { for af in &ids { let mut s = HRow::new(sec, split_date, split_date, Act::Split); s.split = ratio.clone(); s.af = if af.is_empty() { "Default".into() } else { af.clone() }; split_rows.push(s); } }
-    else { let mut s = HRow::new(sec, split_date, split_date, Act::Split); s.split = ratio.clone(); split_rows.push(s); }
+    for ratio in &chain {
+        if per_affiliate { for af in &ids { let mut s = HRow::new(sec, split_date, split_date, Act::Split); s.split = ratio.clone(); s.af = if af.is_empty() { "Default".into() } else { af.clone() }; split_rows.push(s); } }
+        else { let mut s = HRow::new(sec, split_date, split_date, Act::Split); s.split = ratio.clone(); split_rows.push(s); }
+    }
     let mut with_split: Vec<HRow> = vec![];
     let mut inserted = false;
     for (r, l) in base.iter().zip(later.iter()) {
@@ -201,12 +209,13 @@ fn check(c: &SplitPair, obs: &mut Obs) -> Verdict {
     if first_row.values().any(|d| *d > sd) { obs.nt("an-affiliate-holds-nothing-at-the-split"); }
     obs.class(format!("ratio:{}-for-{}", c.a, c.b));
     obs.class(if c.per_affiliate { "per-affiliate-rows" } else { "one-row-for-all" });
+    { let mut per: BTreeMap<String, usize> = BTreeMap::new(); for r in c.with_split.iter().filter(|r| r.act == Act::Split) { *per.entry(r.af.clone()).or_insert(0) += 1; } if per.values().any(|n| *n >= 2) { obs.class("entered-as-two-successive-splits"); } }
     Verdict::Pass
 }
 
 pub fn def() -> PropDef {
-    let mut d = PropDef::new("C15", "window scenarios H (1-4 affiliates incl. registered, an anchor loss sale, 0-7 further buys/sales/RoC at boundary-weighted offsets; all share quantities multiples of 3 and later per-share amounts multiples of a, so the restated history is exactly representable) and H' = H with an a-for-b split inserted at a random position (same day before a row, or the day before) as one row for all affiliates or one row per affiliate, later quantities x a/b and later per-share amounts x b/a; ratios 2-1, 3-1, 4-1, 5-1, 10-1, 1-2, 1-3, 1-4, 1-6, 1-10, 3-2, 2-3, 4-3, 5-2, 7-3, 1.5-1. Both runs must agree on accept/reject; every corresponding row must show the same gain, superficial loss, total ACB and automatic adjustments (1e-9) and share balances scaled by a/b. Non-trivial = the split lies within 30 days of a loss sale, or an affiliate holds nothing at the split. Distinct = distinct case content.");
+    let mut d = PropDef::new("C15", "window scenarios H (1-4 affiliates incl. registered, an anchor loss sale, 0-7 further buys/sales/RoC at boundary-weighted offsets; all share quantities multiples of 3 and later per-share amounts multiples of a, so the restated history is exactly representable) and H' = H with an a-for-b split inserted at a random position (same day before a row, or the day before) as one row for all affiliates or one row per affiliate (a third of the ratios that factor are entered as two successive same-day splits), later quantities x a/b and later per-share amounts x b/a; ratios 2-1, 3-1, 4-1, 5-1, 10-1, 1-2, 1-3, 1-4, 1-6, 1-10, 3-2, 2-3, 4-3, 5-2, 7-3, 1.5-1. Both runs must agree on accept/reject; every corresponding row must show the same gain, superficial loss, total ACB and automatic adjustments (1e-9) and share balances scaled by a/b. Non-trivial = the split lies within 30 days of a loss sale, or an affiliate holds nothing at the split. Distinct = distinct case content.");
     d.assumptions = vec!["base histories contain no other split", "USD rows are not used (rates are irrelevant to neutrality)"];
-    d.subs.push(Box::new(Sub::<SplitPair> { name: "neutral", cases_quick: 15_000, cases_thorough: 600_000, strategy: Box::new(strategy), to_json: SplitPair::to_json, from_json: SplitPair::from_json, check }));
+    d.subs.push(Box::new(Sub::<SplitPair> { name: "neutral", cases_quick: 60_000, cases_thorough: 600_000, strategy: Box::new(strategy), to_json: SplitPair::to_json, from_json: SplitPair::from_json, check }));
     d
 }
